@@ -44,7 +44,7 @@ ASSUMPTIONS = [
     "dropping a synthetic copy that was never sent is a no-op in the code and is not counted as 'dropped'",
 ]
 MUST_REACH = {"scenarios": 500, "hook_exceptions_raised": 100, "claims_observed": 100, "followups_delivered": 500,
-              "ownership_sequences": 300, "illegal_reuse_rejected": 100, "subscriber_scenarios": 20, "predicate_scenarios": 8, "wait_for_scenarios": 4, "rlv_scenarios": 6,
+              "ownership_sequences": 300, "illegal_reuse_rejected": 100, "subscriber_scenarios": 20, "predicate_scenarios": 8, "wait_for_scenarios": 4, "abandoned_wait_scenarios": 6, "rlv_scenarios": 6,
               "packet_hook_scenarios": 6, "object_hook_scenarios": 2}
 
 _ser = UDPMessageSerializer()
@@ -524,6 +524,45 @@ def check_wait_for_multi(ctx, level, first_in, reliable):
         h.close()
 
 
+def check_wait_for_abandoned(ctx, level, direction_in, how):
+    """A waiter that gave up - its future was cancelled, or its timeout expired, or both in either order - must be gone:
+    the next matching message belongs to nobody and is forwarded exactly once."""
+    import asyncio
+    h = Harness(1)
+    try:
+        target = h.session.message_handler if level == "session" else h.region.message_handler
+        name = "ChatFromSimulator" if direction_in else "ChatFromViewer"
+        wit = {"hook": f"{level}.message_handler.wait_for(timeout)", "behaviour": how, "direction": "in" if direction_in else "out"}
+        async def abandon():
+            fut = target.wait_for((name,), timeout=0.02, take=True)     # needs a running loop for its timeout task
+            if how == "cancel_then_timeout":
+                fut.cancel()
+            await asyncio.sleep(0.06)                                    # the waiter's own timeout passes
+            if how == "timeout_then_cancel":
+                fut.cancel()
+            if fut.done() and not fut.cancelled():
+                fut.exception()                                          # retrieve, so nothing is logged at teardown
+            return fut
+        h.rig.loop.run_until_complete(abandon())
+        ctx.ev()
+        ctx.count("scenarios")
+        ctx.count("abandoned_wait_scenarios")
+        for k in range(2):
+            text, data = h.chat(direction_in, False)
+            exc = h.feed(direction_in, data)
+            if exc is not None:
+                ctx.violation("exception-escaped-proxy:wait_for", "an exception left handle_proxied_packet", dict(wit, exc=repr(exc)[:300]))
+            n = h.emissions_with_text(text)
+            if n != 1:
+                ctx.violation("unclaimed-message-lost" if n == 0 else "emitted-more-than-once",
+                              "a message nobody claimed (its waiter had given up) was not put on the wire exactly once",
+                              dict(wit, count=n, nth=k))
+        followup(ctx, h, wit)
+        ctx.nontrivial(("abandoned-wait", level, direction_in, how))
+    finally:
+        h.close()
+
+
 def check_subscriber(ctx, level, which, behaviour, direction_in, reliable):
     """Session- or region-level message_handler subscribers, named or wildcard."""
     h = Harness(1)
@@ -547,6 +586,10 @@ def check_subscriber(ctx, level, which, behaviour, direction_in, reliable):
                 taken.append(msg.take())
             if behaviour == "take_send_copy":
                 h.region.circuit.send(msg.take())
+            if behaviour == "unsub_true":
+                # removes its own subscription and ALSO asks (truthy return) to be removed
+                target.register(name).unsubscribe(sub)
+                return True
             return None
 
         other_calls = []
@@ -563,7 +606,7 @@ def check_subscriber(ctx, level, which, behaviour, direction_in, reliable):
             ctx.count("hook_exceptions_raised")
         if exc is not None:
             ctx.violation("exception-escaped-proxy:subscriber", "an exception left handle_proxied_packet", dict(wit, exc=repr(exc)[:300]))
-        expected = {"none": 1, "true": 1, "raise": 1, "take": 0, "take_send_copy": 1}[behaviour]
+        expected = {"none": 1, "true": 1, "raise": 1, "take": 0, "take_send_copy": 1, "unsub_true": 1}[behaviour]
         n = h.emissions_with_text(text)
         if n > 1:
             ctx.violation("emitted-more-than-once", "a proxied message was put on the wire more than once", dict(wit, count=n))
@@ -785,7 +828,7 @@ def run(ctx):
             others.append(("packet", combo, d))
     for level in ("session", "region"):
         for which in ("named", "wildcard"):
-            for beh in ("none", "true", "raise", "take", "take_send_copy"):
+            for beh in ("none", "true", "raise", "take", "take_send_copy", "unsub_true"):
                 for d in (False, True):
                     for rel in (False, True):
                         others.append(("sub", level, which, beh, d, rel))
@@ -798,6 +841,8 @@ def run(ctx):
         for d in (False, True):
             for rel in (False, True):
                 others.append(("waitfor", level, d, rel))
+            for how in ("timeout_only", "cancel_then_timeout", "timeout_then_cancel"):
+                others.append(("abandoned", level, d, how))
     for combo in itertools.product(["none", "true", "raise"], repeat=2):
         for n in (1, 2, 3):
             others.append(("rlv", combo, n))
@@ -814,6 +859,8 @@ def run(ctx):
             check_predicate(ctx, *o[1:])
         elif o[0] == "waitfor":
             check_wait_for_multi(ctx, *o[1:])
+        elif o[0] == "abandoned":
+            check_wait_for_abandoned(ctx, *o[1:])
         elif o[0] == "rlv":
             check_rlv(ctx, o[1], o[2])
         else:
